@@ -799,10 +799,9 @@ func (p *Proxy) PlayerCount() int {
 // Players returns all players on the proxy.
 func (p *Proxy) Players() []Player {
 	p.muP.RLock()
-	playerIDs := p.playerIDs
-	p.muP.RUnlock()
-	pls := make([]Player, 0, len(playerIDs))
-	for _, player := range playerIDs {
+	defer p.muP.RUnlock()
+	pls := make([]Player, 0, len(p.playerIDs))
+	for _, player := range p.playerIDs {
 		pls = append(pls, player)
 	}
 	return pls
